@@ -1,8 +1,11 @@
 package c15
 
 import (
+	"context"
 	"errors"
+	"fmt"
 	"io"
+	"os"
 	goruntime "runtime"
 )
 
@@ -16,18 +19,75 @@ import (
 //
 // As a writer: Fault makes the write that would carry byte number ErrAt fail after accepting the
 // bytes before it; Sticky keeps every later write failing too.
+//
+// Err names the error VALUE the fault reports (see errValues): "" is the harness's own sentinel; the other names
+// are values real streams report (a truncated HTTP body, a closed pipe, a cancelled context, a deadline ...). The
+// property's error clause does not depend on which value it is: whatever the stream reported as a failure must
+// come back as a failure.
 type Script struct {
-	Chunks  []int `json:"chunks,omitempty"`
-	EOFData bool  `json:"eof_with_data,omitempty"`
-	Fault   bool  `json:"fault,omitempty"`
-	ErrAt   int   `json:"err_at,omitempty"`
-	ErrData bool  `json:"err_with_data,omitempty"`
-	Sticky  bool  `json:"sticky,omitempty"`
+	Chunks  []int  `json:"chunks,omitempty"`
+	EOFData bool   `json:"eof_with_data,omitempty"`
+	Fault   bool   `json:"fault,omitempty"`
+	ErrAt   int    `json:"err_at,omitempty"`
+	ErrData bool   `json:"err_with_data,omitempty"`
+	Sticky  bool   `json:"sticky,omitempty"`
+	Err     string `json:"err,omitempty"`
 }
 
 const maxZeroRun = 50 // bufio gives up after 100 consecutive (0, nil) reads
 
 var errInjected = errors.New("verif: injected stream error")
+
+// timeoutErr is a net.Error whose Timeout() is true (what a connection reports once its deadline has passed).
+type timeoutErr struct{}
+
+func (timeoutErr) Error() string   { return "verif: i/o timeout on the scripted stream" }
+func (timeoutErr) Timeout() bool   { return true }
+func (timeoutErr) Temporary() bool { return true }
+
+// errValues: the error values a scripted fault can report, by name (Script.Err). None of them IS io.EOF: each one
+// is a failure of the stream, not its end, for a reader (io.Reader: only io.EOF itself ends a stream) as for a writer.
+var errValues = map[string]error{
+	"":                       errInjected,
+	"unexpected-eof":         io.ErrUnexpectedEOF, // net/http: a body shorter than its Content-Length; gzip/flate: truncated input
+	"wrapped-unexpected-eof": fmt.Errorf("verif: body cut short: %w", io.ErrUnexpectedEOF),
+	"wrapped-eof":            fmt.Errorf("verif: connection lost: %w", io.EOF),
+	"eof-text":               errors.New("EOF"), // reads like io.EOF, is another value
+	"closed-pipe":            io.ErrClosedPipe,
+	"short-write":            io.ErrShortWrite,
+	"short-buffer":           io.ErrShortBuffer,
+	"no-progress":            io.ErrNoProgress,
+	"ctx-canceled":           context.Canceled,
+	"ctx-deadline":           context.DeadlineExceeded,
+	"os-deadline":            os.ErrDeadlineExceeded,
+	"os-closed":              os.ErrClosed,
+	"net-timeout":            timeoutErr{},
+	"wrapped-net-timeout":    fmt.Errorf("verif: read tcp: %w", timeoutErr{}),
+}
+
+// errNames: the names of errValues but "", in a fixed order (generation must not depend on map order).
+var errNames = []string{"unexpected-eof", "wrapped-unexpected-eof", "wrapped-eof", "eof-text", "closed-pipe", "short-write", "short-buffer",
+	"no-progress", "ctx-canceled", "ctx-deadline", "os-deadline", "os-closed", "net-timeout", "wrapped-net-timeout"}
+
+// err is the error value the script's fault reports (an unknown name in a replay file: the sentinel).
+func (s Script) err() error {
+	if e, ok := errValues[s.Err]; ok {
+		return e
+	}
+	return errInjected
+}
+
+// errFeat is the input feature class an error value adds to a signature ("" for the sentinel, so that the
+// signatures of the pinned witnesses keep their spelling).
+func (s Script) errFeat() string {
+	if !s.Fault || s.Err == "" {
+		return ""
+	}
+	if _, ok := errValues[s.Err]; !ok {
+		return ""
+	}
+	return "/err=" + s.Err
+}
 
 // errUsedAfterClose is what a scripted stream answers once it was closed, as a file or an HTTP body does.
 var errUsedAfterClose = errors.New("verif: stream used after Close")
@@ -71,6 +131,9 @@ func (s Script) class(total int) string {
 		}
 		if s.Sticky {
 			c += "(sticky)"
+		}
+		if f := s.errFeat(); f != "" {
+			c += "(" + f[1:] + ")"
 		}
 	}
 	return c
@@ -129,13 +192,13 @@ func (r *sReader) Read(p []byte) (int, error) {
 		return 0, errUsedAfterClose
 	}
 	if r.errDelivered {
-		return 0, errInjected
+		return 0, r.sc.err()
 	}
 	lim := r.limit()
 	if r.pos >= lim {
 		if r.sc.Fault {
 			r.errDelivered = true
-			return 0, errInjected
+			return 0, r.sc.err()
 		}
 		r.eofDelivered = true
 		return 0, io.EOF
@@ -179,7 +242,7 @@ func (r *sReader) Read(p []byte) (int, error) {
 	if r.pos >= lim {
 		if r.sc.Fault && r.sc.ErrData {
 			r.errDelivered = true
-			return n, errInjected
+			return n, r.sc.err()
 		}
 		if !r.sc.Fault && r.sc.EOFData {
 			r.eofDelivered = true
@@ -221,7 +284,7 @@ func (w *sWriter) Write(p []byte) (int, error) {
 	if w.sc.Fault {
 		if w.errDelivered {
 			if w.sc.Sticky {
-				return 0, errInjected
+				return 0, w.sc.err()
 			}
 		} else if len(w.buf)+len(p) > w.sc.ErrAt {
 			n := w.sc.ErrAt - len(w.buf)
@@ -230,7 +293,7 @@ func (w *sWriter) Write(p []byte) (int, error) {
 			}
 			w.buf = append(w.buf, p[:n]...)
 			w.errDelivered = true
-			return n, errInjected
+			return n, w.sc.err()
 		}
 	}
 	w.buf = append(w.buf, p...)
